@@ -664,37 +664,55 @@ def _json_merged_roles(repo) -> List[str]:
         parts = (dotted_name(e) or '').split('.')
         return parts[1] if len(parts) == 2 and parts[0] == 'model' else None
 
+    def roles_behind(obj: ast.AST, at: ast.AST) -> List[str]:
+        """Roles an expression `<obj>.OutputParameterDict` (occurring at node `at`) stands for: `model.<role>` itself, or the variable of a
+        loop / comprehension over a literal of `model.<role>` objects, or over a list built from a literal plus `.append(model.<role>)`."""
+        r = role_of(obj)
+        if r is not None:
+            return [r]
+        if not isinstance(obj, ast.Name):
+            return []
+        v = obj.id
+        p_ = parent(at)
+        it_ = None
+        while p_ is not None:
+            if isinstance(p_, ast.For) and isinstance(p_.target, ast.Name) and p_.target.id == v:
+                it_ = p_.iter
+                break
+            if isinstance(p_, (ast.ListComp, ast.GeneratorExp, ast.SetComp, ast.DictComp)):
+                g_ = next((g for g in p_.generators if isinstance(g.target, ast.Name) and g.target.id == v), None)
+                if g_ is not None:
+                    it_ = g_.iter
+                    break
+            p_ = parent(p_)
+        if isinstance(it_, (ast.Tuple, ast.List)):
+            return [r2 for r2 in (role_of(e) for e in it_.elts) if r2]
+        if p_ is None or not isinstance(it_, ast.Name):
+            return []
+        lst = it_.id
+        fn = p_
+        while fn is not None and not isinstance(fn, (ast.FunctionDef, ast.Module)):
+            fn = parent(fn)
+        found: List[str] = []
+        for x in ast.walk(fn):
+            if isinstance(x, ast.Assign) and len(x.targets) == 1 and norm(x.targets[0]) == lst and isinstance(x.value, (ast.List, ast.Tuple)):
+                found.extend(r2 for r2 in (role_of(e) for e in x.value.elts) if r2)
+            if isinstance(x, ast.Call) and isinstance(x.func, ast.Attribute) and x.func.attr == 'append' and norm(x.func.value) == lst and x.args:
+                r2 = role_of(x.args[0])
+                if r2:
+                    found.append(r2)
+        return found
+
     for n in ast.walk(mi.tree):
         if isinstance(n, ast.Call) and (dotted_name(n.func) or '').endswith('jsons.dumps') and n.args:
             a0 = n.args[0]
-            if not (isinstance(a0, ast.Attribute) and a0.attr == 'OutputParameterDict'):
-                continue
-            r = role_of(a0.value)
-            if r is not None:
-                out.append(r)
-            elif isinstance(a0.value, ast.Name):
-                v = a0.value.id
-                p_ = parent(n)
-                while p_ is not None and not (isinstance(p_, ast.For) and isinstance(p_.target, ast.Name) and p_.target.id == v):
-                    p_ = parent(p_)
-                if p_ is None or not isinstance(p_.iter, ast.Name):
-                    continue
-                lst = p_.iter.id
-                fn = p_
-                while fn is not None and not isinstance(fn, (ast.FunctionDef, ast.Module)):
-                    fn = parent(fn)
-                for x in ast.walk(fn):
-                    if isinstance(x, ast.Assign) and len(x.targets) == 1 and norm(x.targets[0]) == lst and isinstance(x.value, (ast.List, ast.Tuple)):
-                        out.extend(r2 for r2 in (role_of(e) for e in x.value.elts) if r2)
-                    if isinstance(x, ast.Call) and isinstance(x.func, ast.Attribute) and x.func.attr == 'append' and norm(x.func.value) == lst and x.args:
-                        r2 = role_of(x.args[0])
-                        if r2:
-                            out.append(r2)
+            if isinstance(a0, ast.Attribute) and a0.attr == 'OutputParameterDict':
+                out.extend(roles_behind(a0.value, n))
     if len(set(out)) < 4 and any(isinstance(n, ast.Call) and (dotted_name(n.func) or '').endswith('jsons.dumps') for n in ast.walk(mi.tree)):
-        # the dump goes through a local function / other plumbing: every `model.<role>.OutputParameterDict` the module mentions is dumped
+        # the dump goes through a helper / other plumbing: every `<model part>.OutputParameterDict` the module mentions is dumped
         for n in ast.walk(mi.tree):
-            if isinstance(n, ast.Attribute) and n.attr == 'OutputParameterDict' and role_of(n.value) is not None:
-                out.append(role_of(n.value))
+            if isinstance(n, ast.Attribute) and n.attr == 'OutputParameterDict':
+                out.extend(roles_behind(n.value, n))
     uniq = list(dict.fromkeys(out))
     return [r for r in _ROLE_ORDER if r in uniq] + sorted(r for r in uniq if r not in _ROLE_ORDER)
 
